@@ -112,7 +112,7 @@ def apply(eng, f, args, kwargs, st, node=None):
     elif f.kind == 'specdef':
         yield from call_specdef(eng, f, args, kwargs, st)
     elif f.kind == 'uf':
-        if not any(is_z3(a) for a in args) and f.name in NATIVE_UF:
+        if NATIVE_MODE[0] and not any(is_z3(a) for a in args) and f.name in NATIVE_UF:
             yield NATIVE_UF[f.name](*args), st          # concrete replay: the spec function has an executable meaning
         else:
             yield f.node(*[(to_z3(to_num(a) if not is_bool_like(a) else a) if not isinstance(a, str) else enum_const(f.node.domain(i), a)) for i, a in enumerate(args)]), st
@@ -744,6 +744,7 @@ def spec_array_of(eng, args, kwargs, st):
 
 _UF = {}
 NATIVE_UF = {}
+NATIVE_MODE = [False]      # executable meanings of spec symbols are used only while replaying natively
 
 
 def _chord_spec():
